@@ -581,9 +581,19 @@ func snakeInvertible(name string) bool {
 
 func TestC18Generator(t *testing.T) {
 	rec := evid.New(t, "C18", "XML documents printed from a random dialect model (messages with ids up to 2^24-1, scalar/array/char[n]/scalar char/uint8_t_mavlink_version/enum-typed fields, extension marker at every position, non-snake-case field names, ordinary and bitmask enums with decimal/0x/0b/a**b values, include graphs with diamonds and enums extended by the includer, <version> present/absent) are converted by the real conversion.Convert, compiled with go build, and a probe linked against the generated packages dumps ids, CRC_EXTRA, sizes, per-field one-hot encodings, constants and enum text behaviour; all compared with expectations derived from the model; generating twice must give identical trees; definitions with an unknown field type, a malformed enum value or message name must be refused; non-trivial = document with an extension block, an include, a mavname-requiring field or a non-decimal enum value; distinct by hash of the XML")
-	rec.Require("extension", "include", "mavname-field", "non-decimal-enum-value", "leading-zero-decimal", "negative-refused", "bitmask-enum", "enum-field", "scalar-char", "enum-extended-by-includer")
+	rec.Require("extension", "include", "mavname-field", "non-decimal-enum-value", "leading-zero-decimal", "negative-refused", "bitmask-enum", "enum-field", "scalar-char", "enum-extended-by-includer", "cli-binary-compared")
 	root := scratch(t)
 	defer os.RemoveAll(root)
+	// the command-line tool built from the same tree: its output must equal the in-process conversion
+	cli := filepath.Join(root, "dialect-import.bin")
+	{
+		cmd := exec.Command("go", "build", "-o", cli, "github.com/bluenviron/gomavlib/v3/cmd/dialect-import")
+		cmd.Dir = root
+		cmd.Env = goEnv()
+		if out, err := cmd.CombinedOutput(); err != nil {
+			t.Fatalf("BROKEN: cannot build dialect-import: %v\n%s", err, out)
+		}
+	}
 	evid.Check(t, rec, evid.N(50, 200), func(t *rapid.T) {
 		caseCounter++
 		caseDir := fmt.Sprintf("c%d", caseCounter)
@@ -620,6 +630,19 @@ func TestC18Generator(t *testing.T) {
 					// all three defect classes are detectable by the generator itself, so demand it there
 					fail(d, "definition with defect %q was converted without error", d.Negative)
 				}
+				{
+					cdir := filepath.Join(root, caseDir, fmt.Sprintf("clineg%d", i))
+					must(os.MkdirAll(cdir, 0o755))
+					for _, f := range d.Files {
+						must(os.WriteFile(filepath.Join(cdir, f.Name+".xml"), []byte(f.XML()), 0o644))
+					}
+					cmd := exec.Command(cli, d.Files[0].Name+".xml")
+					cmd.Dir = cdir
+					if _, cerr := cmd.CombinedOutput(); cerr == nil {
+						fail(d, "dialect-import exited 0 on a definition with defect %q", d.Negative)
+					}
+					os.RemoveAll(cdir)
+				}
 				rec.Case(true, evid.Hash(xmlAll), "negative-refused", "neg-"+strings.SplitN(d.Negative, ":", 2)[0])
 				if rec.WantSample("negative") {
 					rec.Sample("negative", map[string]interface{}{"defect": d.Negative, "error": err.Error()})
@@ -645,6 +668,30 @@ func TestC18Generator(t *testing.T) {
 				}
 			}
 			os.RemoveAll(filepath.Join(root, caseDir, fmt.Sprintf("again%d", i)))
+			if i == 0 {
+				// same definition through the real dialect-import binary
+				cdir := filepath.Join(root, caseDir, "cli")
+				must(os.MkdirAll(cdir, 0o755))
+				for _, f := range d.Files {
+					must(os.WriteFile(filepath.Join(cdir, f.Name+".xml"), []byte(f.XML()), 0o644))
+				}
+				cmd := exec.Command(cli, d.Files[0].Name+".xml")
+				cmd.Dir = cdir
+				if out, err := cmd.CombinedOutput(); err != nil {
+					fail(d, "dialect-import refused a valid definition: %v\n%s", err, out)
+				}
+				t3, e3 := readTree(filepath.Join(cdir, d.PkgName()))
+				if e3 != nil || len(t3) != len(t1) {
+					fail(d, "dialect-import produced %d files, conversion.Convert %d (%v)", len(t3), len(t1), e3)
+				}
+				for name, b1 := range t1 {
+					if !bytes.Equal(b1, t3[name]) {
+						fail(d, "dialect-import and conversion.Convert disagree on %s", name)
+					}
+				}
+				rec.Class("cli-binary-compared", 1)
+				os.RemoveAll(cdir)
+			}
 			batch = append(batch, d)
 			pkgDirs = append(pkgDirs, sub)
 		}
